@@ -31,6 +31,8 @@ const FILE_NAMES: &[&str] = &[
     "r\u{f7e9}sum\u{f7e9}.typ", ".h\u{f7ff}.typ", "n\u{f7c3}.typ",
     // decomposed umlaut, glob characters, blanks at the edges, names that collide when case is folded
     "a.typ.typ", "a..typ", "typ.typ", "c.typ ", "a.typ.", "a.tYp", "a.typx", "a.ty", "a.typ,b.typ", "x,y.typ", "lib.typ;z.typ", "a.typ:b.typ", "u\u{308}.typ", "we[i]rd*.typ", "q?.typ", " lead.typ", "trail .typ", "A.typ", "MAIN.typ", "a.TyP", "$HOME.typ", "~.typ", "%41.typ",
+    // names that special argument forms would claim: standard input, a response file, an option
+    "-", "@list.typ", "--check", "-i",
 ];
 const TYP_NAMES: &[&str] = &["a.typ", "b.typ", "main.typ", "c.typ", "lib.typ", "a.b.typ", "z.typ", "sp ace.typ", "A.typ", "MAIN.typ"];
 const DIR_NAMES: &[&str] = &[
@@ -358,8 +360,9 @@ fn spell(rng: &mut Rng, cwd: &str, key: &str, dirlike: bool) -> String {
     if dirlike && rng.chance(0.2) && !s.ends_with('/') {
         s.push('/');
     }
-    // a name starting with '-' must not be mistaken for an option
-    if s.starts_with('-') {
+    // a name starting with '-' must not be mistaken for an option (a lone "-" is a value for the
+    // command-line parser, and the name of a file like any other)
+    if s.starts_with('-') && !(s == "-" && rng.chance(0.5)) {
         s = format!("./{}", s);
     }
     s
@@ -630,6 +633,9 @@ fn gen_paths(rng: &mut Rng, tree: &Tree, cwd: &str, mode: Mode) -> Vec<String> {
             let mut s = spell(rng, cwd, &f, false);
             if rng.chance(0.03) {
                 // a trailing slash after a regular file: not a directory
+                if s == "-" {
+                    s = "./-".into();
+                }
                 s.push('/');
             }
             s
@@ -773,6 +779,7 @@ pub fn gen_inv(rng: &mut Rng, tree: &Tree, docs: &mut Docs, focus: Focus, main_s
         shim_seed: rng.next_u64() >> 1,
         readdir: rng.pick(&["perm", "perm", "perm", "sorted", "reverse", "native"]).to_string(),
         env: gen_env(rng),
+        dashdash: rng.chance(0.08),
         debug: if rng.chance(0.04) && debug_ok { *rng.pick(&[1u8, 2, 3, 5, 6, 7]) } else { 0 },
     }
 }
@@ -884,7 +891,7 @@ fn gen_wraparound_case(seed: u64, profile: &str, params: &GenParams) -> Case {
             paths.push(name);
         }
         let mode = if params.focus == Focus::C14 { Mode::Check } else { Mode::Inplace };
-        let inv = Inv { shape: Shape::Files { mode, paths }, style: StyleArgs::default(), verbosity: 1, check_after: false, cwd: "w".into(), stdin: None, plan: Vec::new(), shim_seed: 1, readdir: "sorted".into(), env: Vec::new(), debug: 0 };
+        let inv = Inv { shape: Shape::Files { mode, paths }, style: StyleArgs::default(), verbosity: 1, check_after: false, cwd: "w".into(), stdin: None, plan: Vec::new(), shim_seed: 1, readdir: "sorted".into(), env: Vec::new(), debug: 0, dashdash: false };
         return Case { seed, profile: "nofault".to_string(), tree, steps: vec![Step::Inv(inv)] };
     }
     if rng.chance(0.25) {
@@ -909,7 +916,7 @@ fn gen_wraparound_case(seed: u64, profile: &str, params: &GenParams) -> Case {
         } else {
             Shape::Files { mode: if check { Mode::Check } else { Mode::Inplace }, paths }
         };
-        let inv = Inv { shape, style: StyleArgs::default(), verbosity: 1, check_after: false, cwd: ".".into(), stdin: None, plan: Vec::new(), shim_seed: rng.next_u64() >> 1, readdir: "sorted".into(), env: Vec::new(), debug: 0 };
+        let inv = Inv { shape, style: StyleArgs::default(), verbosity: 1, check_after: false, cwd: ".".into(), stdin: None, plan: Vec::new(), shim_seed: rng.next_u64() >> 1, readdir: "sorted".into(), env: Vec::new(), debug: 0, dashdash: false };
         return Case { seed, profile: profile.to_string(), tree, steps: vec![Step::Inv(inv)] };
     }
     let k = *rng.pick(&[65usize, 129, 256, 257, 257]);
@@ -950,6 +957,7 @@ fn gen_wraparound_case(seed: u64, profile: &str, params: &GenParams) -> Case {
         readdir: "sorted".into(),
         env: Vec::new(),
         debug: 0,
+        dashdash: false,
     };
     Case { seed, profile: profile.to_string(), tree, steps: vec![Step::Inv(inv)] }
 }
